@@ -159,4 +159,169 @@ theorem injected_unsigned_not_accepted {v vf : Verifier} {pre post : List (Bytes
       · simp at hr
     · simp at hr
 
+/-! ### the multiplexer: histories on one outstanding signed request, across failures -/
+
+theorem muxStep_ok {v v' : Verifier} {rid : Nat} {buf : Bytes} {rdok pok : Bool}
+    (h : muxStep v rid buf rdok pok = .ok (v', .ok)) : StepAuthenticated v buf rdok v' := by
+  unfold muxStep at h
+  split at h
+  · simp at h
+  · split at h
+    · simp at h
+    · split at h
+      · rename_i v'' hv
+        simp only [Outcome.ok.injEq, Prod.mk.injEq, and_true] at h
+        subst h
+        exact verify_ok_authenticated hv
+      · simp at h
+      · simp at h
+
+/-- a message that is not delivered as `Ok` leaves the verifier exactly as it was — in particular it
+stays in place: there is no "request is no longer signed" state -/
+theorem muxStep_not_ok {v v' : Verifier} {rid : Nat} {buf : Bytes} {rdok pok : Bool} {d : Delivery}
+    (h : muxStep v rid buf rdok pok = .ok (v', d)) (hd : d ≠ .ok) : v' = v := by
+  unfold muxStep at h
+  split at h
+  · simp only [Outcome.ok.injEq, Prod.mk.injEq] at h; exact h.1.symm
+  · split at h
+    · simp only [Outcome.ok.injEq, Prod.mk.injEq] at h; exact h.1.symm
+    · split at h
+      · simp only [Outcome.ok.injEq, Prod.mk.injEq] at h; exact absurd h.2.symm hd
+      · simp only [Outcome.ok.injEq, Prod.mk.injEq] at h; exact h.1.symm
+      · simp at h
+
+/-- an unsigned message never comes out `Ok` on a signed request, whatever happened before -/
+theorem muxStep_unsigned_not_ok (v : Verifier) (rid : Nat) {buf : Bytes} {hd : Hdr}
+    (rdok pok : Bool) (hh : readHdr buf = some hd) (har : hd.ar = 0) :
+    ∀ v', muxStep v rid buf rdok pok ≠ .ok (v', .ok) := by
+  intro v' h
+  have := muxStep_ok h
+  obtain ⟨tbs, r, hs, _⟩ := this.ex
+  unfold signedBitmessageToBuf at hs
+  rw [hh] at hs
+  simp [har] at hs
+
+/-- the run of the multiplexer over a history: every `Ok` delivery is authenticated from the state
+left by the previous `Ok` delivery; every other message (dropped or delivered as error) leaves the
+state untouched -/
+inductive MuxChain (rid : Nat) :
+    Verifier → List (Bytes × Bool × Bool) → List Delivery → Verifier → Prop
+  | nil (v : Verifier) : MuxChain rid v [] [] v
+  | ok {v v' vf : Verifier} {buf : Bytes} {rdok pok : Bool} {rest ds} :
+      StepAuthenticated v buf rdok v' → MuxChain rid v' rest ds vf →
+      MuxChain rid v ((buf, rdok, pok) :: rest) (.ok :: ds) vf
+  | other {v vf : Verifier} {buf : Bytes} {rdok pok : Bool} {d : Delivery} {rest ds} :
+      d ≠ .ok → MuxChain rid v rest ds vf →
+      MuxChain rid v ((buf, rdok, pok) :: rest) (d :: ds) vf
+
+/-- **`∀ history, delivered Ok ⇒ verifies against the chain state before it`** — by induction over
+the history for the multiplexer step function, across failures: a failure never turns later
+unverified messages into accepted ones. -/
+theorem muxRun_chain (rid : Nat) : ∀ (msgs : List (Bytes × Bool × Bool)) (v vf : Verifier)
+    (ds : List Delivery), muxRun v rid msgs = .ok (vf, ds) → MuxChain rid v msgs ds vf := by
+  intro msgs
+  induction msgs with
+  | nil =>
+    intro v vf ds h
+    simp only [muxRun, Outcome.ok.injEq, Prod.mk.injEq] at h
+    obtain ⟨rfl, rfl⟩ := h
+    exact .nil v
+  | cons m rest ih =>
+    intro v vf ds h
+    obtain ⟨buf, rdok, pok⟩ := m
+    rw [muxRun] at h
+    split at h
+    · rename_i v' d hstep
+      split at h
+      · rename_i vf' ds' hr
+        simp only [Outcome.ok.injEq, Prod.mk.injEq] at h
+        obtain ⟨rfl, rfl⟩ := h
+        by_cases hd : d = .ok
+        · subst hd
+          exact .ok (muxStep_ok hstep) (ih _ _ _ hr)
+        · have := muxStep_not_ok hstep hd
+          subst this
+          exact .other hd (ih _ _ _ hr)
+      · simp at h
+      · simp at h
+    · simp at h
+    · simp at h
+
+theorem muxStep_no_panic (v : Verifier) (rid : Nat) (buf : Bytes) (rdok pok : Bool) (s : String) :
+    muxStep v rid buf rdok pok ≠ .panic s := by
+  unfold muxStep
+  split
+  · simp
+  · split
+    · simp
+    · split
+      · simp
+      · simp
+      · rename_i m hm; exact absurd hm (verifier_no_panic _ _ _ _ _)
+
+theorem muxStep_total (v : Verifier) (rid : Nat) (buf : Bytes) (rdok pok : Bool) :
+    ∃ v' d, muxStep v rid buf rdok pok = .ok (v', d) := by
+  unfold muxStep
+  split
+  · exact ⟨_, _, rfl⟩
+  · split
+    · exact ⟨_, _, rfl⟩
+    · split
+      · exact ⟨_, _, rfl⟩
+      · exact ⟨_, _, rfl⟩
+      · rename_i m hm; exact absurd hm (verifier_no_panic _ _ _ _ _)
+
+/-- every history has a run (no panic, no global failure), one delivery verdict per message -/
+theorem muxRun_total (rid : Nat) : ∀ (msgs : List (Bytes × Bool × Bool)) (v : Verifier),
+    ∃ vf ds, muxRun v rid msgs = .ok (vf, ds) ∧ ds.length = msgs.length := by
+  intro msgs
+  induction msgs with
+  | nil => intro v; exact ⟨v, [], rfl, rfl⟩
+  | cons m rest ih =>
+    intro v
+    obtain ⟨buf, rdok, pok⟩ := m
+    obtain ⟨v', d, hs⟩ := muxStep_total v rid buf rdok pok
+    obtain ⟨vf, ds, hr, hl⟩ := ih v'
+    rw [muxRun, hs]
+    simp only
+    rw [hr]
+    exact ⟨vf, d :: ds, rfl, by simp [hl]⟩
+
+/-- an unsigned message at any position of any history — after any number of earlier failures — is
+not delivered as `Ok` -/
+theorem mux_unsigned_never_ok {rid : Nat} {v vf : Verifier} {pre post : List (Bytes × Bool × Bool)}
+    {buf : Bytes} {rdok pok : Bool} {hd : Hdr} {ds : List Delivery}
+    (hh : readHdr buf = some hd) (har : hd.ar = 0)
+    (hr : muxRun v rid (pre ++ (buf, rdok, pok) :: post) = .ok (vf, ds)) :
+    ds[pre.length]? ≠ some .ok := by
+  induction pre generalizing v ds with
+  | nil =>
+    rw [List.nil_append, muxRun] at hr
+    split at hr
+    · rename_i v' d hstep
+      split at hr
+      · simp only [Outcome.ok.injEq, Prod.mk.injEq] at hr
+        obtain ⟨rfl, rfl⟩ := hr
+        intro hc
+        simp only [List.length_nil, List.getElem?_cons_zero, Option.some.injEq] at hc
+        subst hc
+        exact muxStep_unsigned_not_ok v rid rdok pok hh har v' hstep
+      · simp at hr
+      · simp at hr
+    · simp at hr
+    · simp at hr
+  | cons m pre ih =>
+    obtain ⟨b', r', p'⟩ := m
+    rw [List.cons_append, muxRun] at hr
+    split at hr
+    · split at hr
+      · rename_i hrest
+        simp only [Outcome.ok.injEq, Prod.mk.injEq] at hr
+        obtain ⟨rfl, rfl⟩ := hr
+        simpa using ih hrest
+      · simp at hr
+      · simp at hr
+    · simp at hr
+    · simp at hr
+
 end HickoryVerif.C13
